@@ -33,7 +33,7 @@ func c17() *report.Check {
 		Rule: "Enumerated, nothing sampled. " +
 			"(1) Validation/round-trip space: all definitions with 0..2 predicates over 16 references (topics 0..3, static and dynamic data offsets 4, 5, 2^32-1, 2^32, dynamic topics) x 37 value predicates (5 integer operators x {0,1,2^256-1,2^256}, BytesEq x byte strings of length 0,5,32(x3),33,64, 10 malformed ones), contracts {0xc0.., 0x00.., 0xff..} for 0/1 predicates; thorough adds all triples over the 270 well-formed predicates. " +
 			"(2) Decoder space: every prefix and every single-byte substitution by {0x00,0xff,b+1} (thorough also b-1, b^0x80, b^1) of the encodings of a base set (quick 51, thorough 276 definitions), plus all byte strings of length <= 2; every accepted decoding is also run through (3) and (4). " +
-			"(3) Match space: every candidate definition with 0..2 predicates over the 270 well-formed predicates plus all triples over a sub-pool of 70 (thorough 130) predicates, that passes the real Validate, against logs built for its references: 0..4 topics with referenced topics in {0,1,pattern,2^256-1}; data lengths around every referenced word; static words {0,1,2^256-1,pattern}; dynamic head words {0,32,64,len-32,len-1,len,len+1,2^20,2^32,2^63,2^64-1,2^64,2^256-1}; length words {0,5,32,33,64,rem-1,rem,rem+1,len-32,len-1,len,len+1,2^20,2^32,2^63,2^64-1,2^64,2^256-1}; contents {pattern,zeros,0xff..,value 1,leading 1}; full resolution when all predicates reference one data word, a reduced 256-byte two-tail layout (plus truncations) when several words/topics are referenced; every log also from another contract along both axes. " +
+			"(3) Match space: every candidate definition with 0..2 predicates over the 270 well-formed predicates plus all triples over a sub-pool of 70 (thorough 130) predicates, that passes the real Validate, against logs built for its references: 0..4 topics with referenced topics in {0,1,pattern,2^256-1}; data lengths around every referenced word; static words {0,1,2^256-1,pattern}; dynamic head words {0,32,64,len-32,len-1,len,len+1,2^20,2^32,2^63,2^64-1,2^64,2^256-1}; length words {0,5,32,33,64,rem-1,rem,rem+1,len-32,len-1,len,len+1,2^17,2^20,2^32,2^63,2^64-1,2^64,2^256-1}; contents {pattern,zeros,0xff..,value 1,leading 1}; full resolution when all predicates reference one data word, a reduced 256-byte two-tail layout (plus truncations) when several words/topics are referenced; every log also from another contract along both axes. " +
 			"(4) Filter: ToFilterQuery of every valid definition, and reference eth_getLogs semantics on every (definition, log) pair of (3).",
 		Assumptions: []string{
 			"docs/event.md defines a referenced value only when it exists: topic index < number of topics; static word fully inside the data; dynamic: head word inside and < 2^64, length word inside and < 2^64, slice inside. Only then is Match compared with the reference; in all other cases (absent topic, word/head/length/slice straddling or beyond the data end, head or length word >= 2^64 where uint64(WORD) is ambiguous) only a yes/no answer without panic, process death or allocation beyond 64 KiB + 4*len(data) is demanded. The code's own zero-padding convention is not demanded.",
